@@ -27,7 +27,9 @@ Next == PredictStep \/ ReadStep
 Spec == Init /\ [][Next]_<<opt, pc>>
 Export == pc = "done" => PrintT(ToJson(opt))
 
-FilesAll == {"own", "own_nometa", "foreign", "hive", "drill"}
+(* own_idx / own_tidx / own_midx: files written WITH a row index (a named integer index, a named microsecond timestamp
+   index, a two-level index): the index columns the handle announces are the ones the read then puts into the index *)
+FilesAll == {"own", "own_nometa", "foreign", "hive", "drill", "own_idx", "own_tidx", "own_midx"}
 ColsAllOpts == {"all", "subset", "reordered"}
 CatsAll == {"none", "list", "dict", "empty"}
 IdxAll == {"none", "false", "name", "time"}     \* "time": a timestamp column of micro- or millisecond resolution as the index
